@@ -771,6 +771,7 @@ func (s *Server) pushUpdateMutations(muts []tracerMutation) error {
 
 	// notify without a response
 	s.CallCount++
+	verifPoint("srv.pushBeforeNotify", s)
 
 	// TODO failsafe retry (stateful)
 	return c.Notify(ClientUpdateMutations.Value, updateMuts)
@@ -796,6 +797,8 @@ func (s *Server) pushUpdateLatest(data *tracerData) error {
 	s.CallCount++
 	// fmt.Printf("[S] update %v\n", update)
 	// fmt.Printf("[S] time %v\n", data.mTime)
+
+	verifPoint("srv.pushBeforeNotify", s)
 
 	// TODO failsafe retry (stateful)
 	return c.Notify(ClientUpdate.Value, update)
@@ -950,6 +953,7 @@ func (s *Server) RemoteAdd(
 	if s.Mach.Not1(ssS.Start) {
 		return am.ErrCanceled
 	}
+	defer verifPoint("srv.mutationReplyUnlocked", s)
 	s.lockExport.Lock()
 	defer s.lockExport.Unlock()
 
@@ -1016,6 +1020,7 @@ func (s *Server) RemoteRemove(
 	if s.Mach.Not1(ssS.Start) {
 		return am.ErrCanceled
 	}
+	defer verifPoint("srv.mutationReplyUnlocked", s)
 	s.lockExport.Lock()
 	defer s.lockExport.Unlock()
 
@@ -1047,6 +1052,7 @@ func (s *Server) RemoteSet(
 	if s.Mach.Not1(ssS.Start) {
 		return am.ErrCanceled
 	}
+	defer verifPoint("srv.mutationReplyUnlocked", s)
 	s.lockExport.Lock()
 	defer s.lockExport.Unlock()
 
